@@ -26,7 +26,7 @@ DECIDING_COUNTERS = ["queries_checked", "total_bounds_checked"]
 
 def shards(tier, seed):
     out = []
-    trials = 100 if tier == "quick" else 1200
+    trials = 100 if tier == "quick" else 6000
     for d in (1, 2, 3):
         for b in ("J", "B"):
             out.append({"name": f"d{d}-{b}", "build": b,
